@@ -1,8 +1,9 @@
 package main
 
 // Compilation of contract expressions to executable Go (the replay oracle).
-// Mathematical integers become Go int in "int" mode; in "bv" mode the Go
-// types of the operands are kept (wrapping arithmetic is then identical).
+// In "int" mode integers are mathematical: every integer expression is
+// evaluated with math/big. In "bv" mode the Go types of the operands are kept
+// (wrapping arithmetic is then identical to the verified semantics).
 
 import (
 	"fmt"
@@ -12,8 +13,9 @@ import (
 
 type goVal struct {
 	code string
-	t    types.Type // nil: untyped literal or spec-level int
+	t    types.Type // nil: untyped literal or big integer
 	lit  bool
+	big  bool
 }
 
 type goGen struct {
@@ -33,24 +35,82 @@ type goUnsup struct{ msg string }
 
 func gounsup(format string, a ...any) { panic(goUnsup{fmt.Sprintf(format, a...)}) }
 
-func (g *goGen) isInt(v goVal) bool { return v.t == nil || isIntType(v.t) }
+const goHelpers = `
+func govcL(s string) *big.Int { n, _ := new(big.Int).SetString(s, 10); return n }
+func govcB(x int64) *big.Int  { return big.NewInt(x) }
+func govcU(x uint64) *big.Int { return new(big.Int).SetUint64(x) }
+func govcI(x *big.Int) int {
+	if !x.IsInt64() {
+		panic("index out of int range")
+	}
+	return int(x.Int64())
+}
+func govcCmp(a, b *big.Int) int        { return a.Cmp(b) }
+func govcAdd(a, b *big.Int) *big.Int    { return new(big.Int).Add(a, b) }
+func govcSub(a, b *big.Int) *big.Int    { return new(big.Int).Sub(a, b) }
+func govcMul(a, b *big.Int) *big.Int    { return new(big.Int).Mul(a, b) }
+func govcQuo(a, b *big.Int) *big.Int    { return new(big.Int).Quo(a, b) }
+func govcRem(a, b *big.Int) *big.Int    { return new(big.Int).Rem(a, b) }
+func govcEDiv(a, b *big.Int) *big.Int   { return new(big.Int).Div(a, b) }
+func govcEMod(a, b *big.Int) *big.Int   { return new(big.Int).Mod(a, b) }
+func govcShl(a *big.Int, n int) *big.Int { return new(big.Int).Lsh(a, uint(n)) }
+func govcShr(a *big.Int, n int) *big.Int { return new(big.Int).Rsh(a, uint(n)) }
+func govcAnd(a, b *big.Int) *big.Int    { return new(big.Int).And(a, b) }
+func govcOr(a, b *big.Int) *big.Int     { return new(big.Int).Or(a, b) }
+func govcXor(a, b *big.Int) *big.Int    { return new(big.Int).Xor(a, b) }
+func govcAndNot(a, b *big.Int) *big.Int { return new(big.Int).AndNot(a, b) }
+func govcNeg(a *big.Int) *big.Int       { return new(big.Int).Neg(a) }
+func govcNot(a *big.Int) *big.Int       { return new(big.Int).Not(a) }
+func govcAbs(a *big.Int) *big.Int       { return new(big.Int).Abs(a) }
+func govcMin(a, b *big.Int) *big.Int {
+	if a.Cmp(b) < 0 {
+		return a
+	}
+	return b
+}
+func govcMax(a, b *big.Int) *big.Int {
+	if a.Cmp(b) > 0 {
+		return a
+	}
+	return b
+}
+func govcWrap(x *big.Int, bits uint, signed bool) *big.Int {
+	m := new(big.Int).Lsh(big.NewInt(1), bits)
+	r := new(big.Int).Mod(x, m)
+	if signed && r.Bit(int(bits-1)) == 1 {
+		r.Sub(r, m)
+	}
+	return r
+}
+var _ = []any{govcL, govcB, govcU, govcI, govcCmp, govcAdd, govcSub, govcMul, govcQuo, govcRem, govcEDiv, govcEMod, govcShl, govcShr,
+	govcAnd, govcOr, govcXor, govcAndNot, govcNeg, govcNot, govcAbs, govcMin, govcMax, govcWrap}
+`
 
-// num converts an integer-valued expression to the arithmetic domain.
+func (g *goGen) bigMode() bool { return g.mode != "bv" }
+
+func (g *goGen) isInt(v goVal) bool { return v.big || v.lit || (v.t != nil && isIntType(v.t)) }
+
+// num renders an integer-valued expression in the arithmetic domain.
 func (g *goGen) num(v goVal) string {
-	if v.lit || g.mode == "bv" {
+	if !g.bigMode() {
 		return v.code
 	}
-	if v.t != nil && isIntType(v.t) {
-		if b, ok := v.t.Underlying().(*types.Basic); ok && b.Kind() == types.Int && !strings.HasPrefix(v.code, "int(") {
-			return v.code
+	switch {
+	case v.big:
+		return v.code
+	case v.lit:
+		return "govcL(\"" + strings.Trim(v.code, "()") + "\")"
+	case v.t != nil && isIntType(v.t):
+		_, signed := intInfo(v.t)
+		if signed {
+			return "govcB(int64(" + v.code + "))"
 		}
-		return "int(" + v.code + ")"
+		return "govcU(uint64(" + v.code + "))"
 	}
-	return v.code
+	gounsup("integer expected: %s", v.code)
+	return ""
 }
 
-// tryBool compiles a clause; unsupported conjuncts in positive position are
-// dropped (treated as true). ok=false if nothing could be compiled.
 func (g *goGen) clause(e CExpr) (code string, ok bool) {
 	defer func() {
 		if r := recover(); r != nil {
@@ -99,7 +159,7 @@ func (g *goGen) tryPos(e CExpr) (code string, ok bool) {
 
 func (g *goGen) bool(e CExpr) string {
 	v := g.expr(e)
-	if v.t != nil && !isBoolType(v.t) {
+	if v.big || v.lit || (v.t != nil && !isBoolType(v.t)) {
 		gounsup("boolean expected: %s", e)
 	}
 	return v.code
@@ -125,40 +185,41 @@ func (g *goGen) expr(e CExpr) goVal {
 			return goVal{code: "!(" + x.code + ")", t: boolT}
 		case "-":
 			if x.lit {
-				return goVal{code: "(-" + x.code + ")", lit: true}
+				return goVal{code: "-" + strings.Trim(x.code, "()"), lit: true}
 			}
-			return goVal{code: "(-" + g.num(x) + ")", t: g.numT(x)}
+			if g.bigMode() {
+				return goVal{code: "govcNeg(" + g.num(x) + ")", big: true}
+			}
+			return goVal{code: "(-" + x.code + ")", t: x.t}
 		case "^":
-			return goVal{code: "(^" + g.num(x) + ")", t: g.numT(x)}
+			if g.bigMode() {
+				return goVal{code: "govcNot(" + g.num(x) + ")", big: true}
+			}
+			return goVal{code: "(^" + x.code + ")", t: x.t}
 		}
 	case *CBin:
 		return g.binary(e)
 	case *CCond:
 		c := g.bool(e.C)
 		a, b := g.expr(e.A), g.expr(e.B)
-		ty := "int"
-		var rt types.Type = intT
 		switch {
 		case a.t != nil && isBoolType(a.t):
-			ty, rt = "bool", boolT
+			return goVal{code: fmt.Sprintf("func() bool { if %s { return %s }; return %s }()", c, a.code, b.code), t: boolT}
 		case a.t != nil && isStringType(a.t):
-			ty, rt = g.rend.typeStr(a.t), a.t
-		case g.mode == "bv":
-			t := a.t
-			if t == nil {
-				t = b.t
-			}
-			if t == nil {
-				t = types.Typ[types.Int64]
-			}
-			ty, rt = g.rend.typeStr(t), t
-			return goVal{code: fmt.Sprintf("func() %s { if %s { return %s(%s) }; return %s(%s) }()", ty, c, ty, a.code, ty, b.code), t: rt}
+			ty := g.rend.typeStr(a.t)
+			return goVal{code: fmt.Sprintf("func() %s { if %s { return %s }; return %s }()", ty, c, a.code, b.code), t: a.t}
+		case g.bigMode():
+			return goVal{code: fmt.Sprintf("func() *big.Int { if %s { return %s }; return %s }()", c, g.num(a), g.num(b)), big: true}
 		}
-		ac, bc := a.code, b.code
-		if ty == "int" {
-			ac, bc = g.num(a), g.num(b)
+		t := a.t
+		if t == nil {
+			t = b.t
 		}
-		return goVal{code: fmt.Sprintf("func() %s { if %s { return %s }; return %s }()", ty, c, ac, bc), t: rt}
+		if t == nil {
+			t = types.Typ[types.Int64]
+		}
+		ty := g.rend.typeStr(t)
+		return goVal{code: fmt.Sprintf("func() %s { if %s { return %s(%s) }; return %s(%s) }()", ty, c, ty, a.code, ty, b.code), t: t}
 	case *CQuant:
 		return g.quant(e)
 	case *CIndex:
@@ -236,19 +297,15 @@ func (g *goGen) expr(e CExpr) goVal {
 
 func (g *goGen) idx(i goVal) string {
 	if i.lit {
-		return i.code
+		return strings.Trim(i.code, "()")
 	}
-	if g.mode == "bv" {
-		return "int(" + i.code + ")"
+	if g.bigMode() {
+		if !i.big && i.t != nil && isIntType(i.t) {
+			return "int(" + i.code + ")"
+		}
+		return "govcI(" + g.num(i) + ")"
 	}
-	return g.num(i)
-}
-
-func (g *goGen) numT(v goVal) types.Type {
-	if g.mode == "bv" {
-		return v.t
-	}
-	return intT
+	return "int(" + i.code + ")"
 }
 
 func (g *goGen) lookup(name string) (goVal, bool) {
@@ -295,10 +352,12 @@ func (g *goGen) binary(e *CBin) goVal {
 		return goVal{code: "((" + g.bool(e.X) + ") == (" + g.bool(e.Y) + "))", t: boolT}
 	}
 	x, y := g.expr(e.X), g.expr(e.Y)
-	nonNum := func(v goVal) bool { return v.t != nil && !isIntType(v.t) }
 	switch e.Op {
 	case "==", "!=", "<", "<=", ">", ">=":
-		if nonNum(x) || nonNum(y) {
+		if !g.isInt(x) || !g.isInt(y) {
+			if x.code == "nil" || y.code == "nil" {
+				return goVal{code: "(" + x.code + " " + e.Op + " " + y.code + ")", t: boolT}
+			}
 			if (x.t != nil && isStringType(x.t)) || (y.t != nil && isStringType(y.t)) {
 				return goVal{code: "(string(" + x.code + ") " + e.Op + " string(" + y.code + "))", t: boolT}
 			}
@@ -306,21 +365,26 @@ func (g *goGen) binary(e *CBin) goVal {
 				gounsup("ordering on %s", e)
 			}
 			if x.t != nil {
-				if _, isSl := types.Unalias(x.t).Underlying().(*types.Slice); isSl && y.code != "nil" {
+				if _, isSl := types.Unalias(x.t).Underlying().(*types.Slice); isSl {
 					gounsup("slice equality")
 				}
 			}
 			return goVal{code: "(" + x.code + " " + e.Op + " " + y.code + ")", t: boolT}
 		}
-		if x.code == "nil" || y.code == "nil" {
-			return goVal{code: "(" + x.code + " " + e.Op + " " + y.code + ")", t: boolT}
+		if g.bigMode() {
+			return goVal{code: "(govcCmp(" + g.num(x) + ", " + g.num(y) + ") " + e.Op + " 0)", t: boolT}
 		}
 		a, b := g.pair(x, y)
 		return goVal{code: "(" + a + " " + e.Op + " " + b + ")", t: boolT}
 	case "+", "-", "*", "/", "%", "&", "|", "^", "&^":
+		if g.bigMode() {
+			fn := map[string]string{"+": "govcAdd", "-": "govcSub", "*": "govcMul", "/": "govcQuo", "%": "govcRem",
+				"&": "govcAnd", "|": "govcOr", "^": "govcXor", "&^": "govcAndNot"}[e.Op]
+			return goVal{code: fn + "(" + g.num(x) + ", " + g.num(y) + ")", big: true}
+		}
 		a, b := g.pair(x, y)
-		rt := g.numT(x)
-		if x.lit && g.mode == "bv" {
+		rt := x.t
+		if x.lit {
 			rt = y.t
 		}
 		if x.lit && y.lit {
@@ -328,37 +392,37 @@ func (g *goGen) binary(e *CBin) goVal {
 		}
 		return goVal{code: "(" + a + " " + e.Op + " " + b + ")", t: rt}
 	case "<<", ">>":
+		if g.bigMode() {
+			fn := "govcShl"
+			if e.Op == ">>" {
+				fn = "govcShr"
+			}
+			return goVal{code: fn + "(" + g.num(x) + ", " + g.idx(y) + ")", big: true}
+		}
 		cnt := y.code
 		if !y.lit {
 			cnt = "uint(" + y.code + ")"
 		}
-		if x.lit && y.lit {
-			return goVal{code: "(" + x.code + " " + e.Op + " " + cnt + ")", lit: true}
-		}
-		xc := g.num(x)
+		xc := x.code
 		if x.lit {
-			if g.mode == "bv" {
-				xc = "int64(" + x.code + ")"
-			} else {
-				xc = "int(" + x.code + ")"
-			}
+			xc = "int64(" + x.code + ")"
 		}
-		return goVal{code: "(" + xc + " " + e.Op + " " + cnt + ")", t: g.numT(x)}
+		rt := x.t
+		if rt == nil {
+			rt = types.Typ[types.Int64]
+		}
+		return goVal{code: "(" + xc + " " + e.Op + " " + cnt + ")", t: rt}
 	}
 	gounsup("operator %s", e.Op)
 	return goVal{}
 }
 
-// pair renders two integer operands in a common Go type.
+// pair renders two integer operands in a common Go type (bv mode).
 func (g *goGen) pair(x, y goVal) (string, string) {
-	if g.mode != "bv" {
-		return g.num(x), g.num(y)
-	}
 	switch {
 	case x.lit || y.lit:
 		return x.code, y.code
 	case x.t != nil && y.t != nil && !types.Identical(x.t, y.t):
-		// widen the narrower operand
 		bx, _ := intInfo(x.t)
 		by, _ := intInfo(y.t)
 		if bx >= by {
@@ -370,7 +434,6 @@ func (g *goGen) pair(x, y goVal) (string, string) {
 }
 
 func (g *goGen) quant(e *CQuant) goVal {
-	// bounds from the guard
 	body := e.Body
 	var guard CExpr
 	if b, ok := body.(*CBin); ok && ((e.Forall && b.Op == "==>") || (!e.Forall && b.Op == "&&")) {
@@ -380,8 +443,6 @@ func (g *goGen) quant(e *CQuant) goVal {
 	}
 	saved := map[string]goVal{}
 	var heads []string
-	// ranges: first from bounds that do not mention sibling variables, then
-	// through sibling relations (i < j && j < n gives i the range of j)
 	los, his := map[string]string{}, map[string]string{}
 	sib := map[string]bool{}
 	for _, v := range e.Vars {
@@ -412,19 +473,19 @@ func (g *goGen) quant(e *CQuant) goVal {
 			if !xok || !yok || !sib[x.Name] || !sib[y.Name] {
 				continue
 			}
-			small, big := x.Name, y.Name
+			small, bigv := x.Name, y.Name
 			switch b.Op {
 			case "<", "<=":
 			case ">", ">=":
-				small, big = y.Name, x.Name
+				small, bigv = y.Name, x.Name
 			default:
 				continue
 			}
-			if his[small] == "" && his[big] != "" {
-				his[small] = his[big]
+			if his[small] == "" && his[bigv] != "" {
+				his[small] = his[bigv]
 			}
-			if los[big] == "" && los[small] != "" {
-				los[big] = los[small]
+			if los[bigv] == "" && los[small] != "" {
+				los[bigv] = los[small]
 			}
 		}
 	}
@@ -436,7 +497,7 @@ func (g *goGen) quant(e *CQuant) goVal {
 			gounsup("no finite range for quantified %s", v.Name)
 		}
 		g.vars[v.Name] = goVal{code: name, t: intT}
-		heads = append(heads, fmt.Sprintf("for %s := %s; %s < %s; %s++ {", name, lo, name, hi, name))
+		heads = append(heads, fmt.Sprintf("for %s := %s; %s < %s && %s < (%s)+100000; %s++ {", name, lo, name, hi, name, lo, name))
 	}
 	b := g.bool(e.Body)
 	for _, v := range e.Vars {
@@ -465,21 +526,8 @@ func (g *goGen) quant(e *CQuant) goVal {
 }
 
 // findBounds looks for lo <= k / lo < k and k < hi / k <= hi among the
-// conjuncts of the guard. Bounds must not mention later-bound variables.
+// conjuncts of the guard (as Go int expressions).
 func (g *goGen) findBounds(guard CExpr, name string) (lo, hi string) {
-	var conj []CExpr
-	var flat func(e CExpr)
-	flat = func(e CExpr) {
-		if b, ok := e.(*CBin); ok && b.Op == "&&" {
-			flat(b.X)
-			flat(b.Y)
-			return
-		}
-		if e != nil {
-			conj = append(conj, e)
-		}
-	}
-	flat(guard)
 	isVar := func(e CExpr) bool { id, ok := e.(*CIdent); return ok && id.Name == name }
 	try := func(e CExpr) (s string, ok bool) {
 		defer func() {
@@ -491,13 +539,9 @@ func (g *goGen) findBounds(guard CExpr, name string) (lo, hi string) {
 				panic(r)
 			}
 		}()
-		v := g.expr(e)
-		if g.mode == "bv" && !v.lit {
-			return "int(" + v.code + ")", true
-		}
-		return g.num(v), true
+		return g.idx(g.expr(e)), true
 	}
-	for _, c := range conj {
+	for _, c := range flattenAnd(guard) {
 		b, ok := c.(*CBin)
 		if !ok {
 			continue
@@ -551,29 +595,46 @@ func (g *goGen) call(e *CCall) goVal {
 		}
 		return goVal{code: e.F + "(" + x.code + ")", t: intT}
 	case "min", "max":
+		if g.bigMode() {
+			fn := "govcMin"
+			if e.F == "max" {
+				fn = "govcMax"
+			}
+			return goVal{code: fn + "(" + g.num(arg(0)) + ", " + g.num(arg(1)) + ")", big: true}
+		}
 		a, b := g.pair(arg(0), arg(1))
-		return goVal{code: e.F + "(" + a + ", " + b + ")", t: g.numT(arg(0))}
+		return goVal{code: e.F + "(" + a + ", " + b + ")", t: arg(0).t}
 	case "abs":
-		a := g.num(arg(0))
-		return goVal{code: "func() int { if " + a + " < 0 { return -(" + a + ") }; return " + a + " }()", t: intT}
+		if g.bigMode() {
+			return goVal{code: "govcAbs(" + g.num(arg(0)) + ")", big: true}
+		}
+		gounsup("abs in bv mode")
 	case "int", "int64", "uint64", "uint", "byte", "uint8", "uint16", "uint32", "int32", "int16", "int8":
 		x := arg(0)
-		if g.mode == "bv" {
-			bt := map[string]types.BasicKind{"int": types.Int, "int64": types.Int64, "uint64": types.Uint64, "uint": types.Uint, "byte": types.Uint8,
-				"uint8": types.Uint8, "uint16": types.Uint16, "uint32": types.Uint32, "int32": types.Int32, "int16": types.Int16, "int8": types.Int8}[e.F]
+		bt := map[string]types.BasicKind{"int": types.Int, "int64": types.Int64, "uint64": types.Uint64, "uint": types.Uint, "byte": types.Uint8,
+			"uint8": types.Uint8, "uint16": types.Uint16, "uint32": types.Uint32, "int32": types.Int32, "int16": types.Int16, "int8": types.Int8}[e.F]
+		if !g.bigMode() {
 			return goVal{code: e.F + "(" + x.code + ")", t: types.Typ[bt]}
 		}
-		// int mode: conversion = reduction to the target range
-		return goVal{code: "int(" + e.F + "(" + g.num(x) + "))", t: intT}
+		bits, signed := intInfo(types.Typ[bt])
+		return goVal{code: fmt.Sprintf("govcWrap(%s, %d, %v)", g.num(x), bits, signed), big: true}
 	case "string":
 		x := arg(0)
 		return goVal{code: "string(" + x.code + ")", t: types.Typ[types.String]}
 	case "div", "mod":
-		a, b := g.num(arg(0)), g.num(arg(1))
-		if e.F == "div" {
-			return goVal{code: "govcEDiv(" + a + ", " + b + ")", t: intT}
+		if !g.bigMode() {
+			gounsup("div/mod in bv mode")
 		}
-		return goVal{code: "govcEMod(" + a + ", " + b + ")", t: intT}
+		fn := "govcEDiv"
+		if e.F == "mod" {
+			fn = "govcEMod"
+		}
+		return goVal{code: fn + "(" + g.num(arg(0)) + ", " + g.num(arg(1)) + ")", big: true}
+	case "pow2":
+		if g.bigMode() {
+			return goVal{code: "govcShl(govcB(1), " + g.idx(arg(0)) + ")", big: true}
+		}
+		gounsup("pow2 in bv mode")
 	case "ref", "off", "fresh", "update", "typeis", "unbox", "deref":
 		gounsup("%s is not executable", e.F)
 	}
@@ -592,7 +653,6 @@ func (g *goGen) call(e *CCall) goVal {
 		for i, p := range sf.Params {
 			v := g.expr(e.Args[i])
 			nv[p.Name] = v
-			// the same argument evaluated in the old state
 			was := g.inOld
 			g.inOld = true
 			func() {
@@ -607,11 +667,10 @@ func (g *goGen) call(e *CCall) goVal {
 			}()
 			g.inOld = was
 		}
-		// quantified variables of enclosing scopes stay visible by their Go names only through args
 		g.vars, g.oldVars = nv, no
 		defer func() { g.vars, g.oldVars = savedVars, savedOld }()
 		r := g.expr(sf.Body)
-		if sf.Ret == "bool" {
+		if sf.Ret == "bool" && !r.big && !r.lit {
 			r.t = boolT
 		}
 		return r
@@ -623,7 +682,12 @@ func (g *goGen) call(e *CCall) goVal {
 		for i := range e.Args {
 			a := arg(i)
 			if i < sig.Params().Len() {
-				as = append(as, g.rend.typeStr(sig.Params().At(i).Type())+"("+a.code+")")
+				pt := sig.Params().At(i).Type()
+				if g.bigMode() && isIntType(pt) {
+					as = append(as, g.rend.typeStr(pt)+"("+g.num(a)+".Int64())")
+				} else {
+					as = append(as, g.rend.typeStr(pt)+"("+a.code+")")
+				}
 			} else {
 				as = append(as, a.code)
 			}
